@@ -51,12 +51,15 @@ def savepoints_of(trace, ops):
     """from the run's own observations: (base_dump, base_class, [(end_offset_in_final_log, dump)])"""
     base, cls, sps = trace["dump0"], "open", []
     prev = trace["open"][1] if trace["open"] else 0
+    prevm = trace["open"][2] if trace["open"] else 0
     for i in range(len(ops)):
         o = trace["ops"].get(i)
         if not o or o.get("rc") is None:
             break
         wsz = o["walsz"]
-        if wsz < prev or (ops[i] == "c" and o["rc"] == "0"):
+        grown = o["mainsz"] != prevm       # the file was resized inside this operation: forced checkpoint, log truncated
+        prevm = o["mainsz"]
+        if wsz < prev or grown or (ops[i] == "c" and o["rc"] == "0"):
             sps = []
             if ops[i] == "c":
                 base, cls = o["dump"], "checkpoint"
@@ -226,7 +229,10 @@ def oracle_flip(hist, r):
 def classify(hist, r, kind):
     if hist.get("reset"):
         return "reset-mark"
-    if hist["base_class"] == "growth-checkpoint" and (not hist["sps"] or r["cut"] < hist["sps"][0][0]):
+    # known finding seen through the log: the run's log was truncated by a growth-forced checkpoint in
+    # mid-operation (base state torn) and this recovery applied no record at all, i.e. it landed on that base
+    applied0 = W.fields(r["model"]).get("applied", "").startswith("0:") or W.fields(r["impl_wal"]).get("applied", "").startswith("0:")
+    if hist["base_class"] == "growth-checkpoint" and (applied0 or not hist["sps"] or r["cut"] < hist["sps"][0][0]):
         return "growth-checkpoint"
     if kind == "cut":
         for end, _ in hist["sps"]:
@@ -259,7 +265,13 @@ def do_history(run, impl, model, wd, name, crc, ops, ncut, nflip, corpus_cases=N
     for _, op, _ in frames:
         run.dist("rec_" + W.KIND[op])
     if corpus_cases is not None:
-        cases = corpus_cases
+        # corpus cuts may be symbolic: "sp<k>-<d>" = d bytes before the end of the k-th savepoint of the log
+        def cutof(c):
+            if isinstance(c, str) and c.startswith("sp"):
+                k, dd = c[2:].split("-")
+                return sps[int(k)][0] - int(dd) if int(k) < len(sps) else len(wal)
+            return len(wal) if c == "end" else c
+        cases = [(cutof(c), f) for c, f in corpus_cases]
     else:
         b, inner = interesting_cuts(rng, wal, frames, ncut)
         cases = [(c, []) for c in b + inner]
@@ -308,8 +320,8 @@ def do_history(run, impl, model, wd, name, crc, ops, ncut, nflip, corpus_cases=N
     # appends SEP+RESET; if the process then dies before the next truncating checkpoint, open must recover from
     # the mark): built from the real log at a savepoint end b, main file = the implementation's own recovery of
     # wal[:b]
-    if corpus_cases is None and len(sps) >= 2 and nreset > 0:
-        for b in sorted(set([sps[rng.below(len(sps))][0], sps[0][0]]))[:2]:
+    if len(sps) >= 2 and nreset > 0:
+        for b in (sorted(set([sps[rng.below(len(sps))][0], sps[0][0]]))[:2] if corpus_cases is None else [sps[0][0]]):
             pre = os.path.join(wd, "%s-pre%d" % (name, b))
             os.makedirs(pre, exist_ok=True)
             shutil.copyfile(os.path.join(d, "db"), os.path.join(pre, "db"))
@@ -359,17 +371,17 @@ def check(run):
                 continue
             c = json.load(open(os.path.join(cdir, cf)))
             do_history(run, impl, model, wd, "corp" + cf[:-5].replace("-", ""), c["crc"], c["ops"], 0, 0,
-                       corpus_cases=[(x[0], [tuple(y) for y in x[1]]) for x in c["cases"]])
+                       corpus_cases=[(x[0], [tuple(y) for y in x[1]]) for x in c["cases"]], nreset=c.get("nreset", 0))
         if run.tier == "quick":
             nh, ncut, nflip = 4 * mult, 450, 120
         else:
-            nh, ncut, nflip = 50 * mult, 100000, 1500
+            nh, ncut, nflip = 12 * mult, 3000, 900
         for h in range(nh):
             crc = [0, 1, 2, 3][h % 4] if h < 4 else run.rng.below(4)
             pregrow = run.tier == "quick" or run.rng.chance(3, 4)
             ops = gen_history(run.rng, crc, pregrow)
             run.dist("history_crc%d" % crc)
-            do_history(run, impl, model, wd, "h%d" % h, crc, ops, ncut, nflip, nreset=(60 if run.tier == "quick" else 2000))
+            do_history(run, impl, model, wd, "h%d" % h, crc, ops, ncut, nflip, nreset=(60 if run.tier == "quick" else 400))
             if run.broken and len(run.broken) > 20:
                 break
     finally:
